@@ -367,7 +367,13 @@ def compile_ilp32(work, name, sources):
     gi = so.strip()
     flags = ['-m32', '-DVP_ILP32', '-O2', '-ffreestanding', '-fno-pic', '-fno-stack-protector', '-nostdinc', '-isystem', gi,
              '-isystem', os.path.join(VERIF, 'tools', 'stubs')]
-    return compile_many(work, name, srcs, flags, link_flags=['-m32', '-nostdlib', '-static', '-no-pie'])
+    b = compile_many(work, name, srcs, flags, link_flags=['-m32', '-nostdlib', '-static', '-no-pie'])
+    # the freestanding runtime sets up no thread-local storage: a program that has a TLS segment cannot run here
+    # (any __thread access would fault for a reason that is the runtime's, not the code's) - skipped, not judged
+    rc, so, se = run(['readelf', '-lW', b])
+    if rc == 0 and re.search(r'^\s*TLS\s', so, re.M):
+        raise HarnessError('ILP32 build has a thread-local storage segment, which the freestanding runtime does not provide')
+    return b
 
 
 MSAN_FLAGS = ['-fsanitize=memory', '-fsanitize-memory-track-origins=2', '-fno-omit-frame-pointer', '-O0', '-g']
